@@ -338,6 +338,24 @@ def save_replay(pid, name, files):
     return d
 
 
+def replay_observation(pid, module, replay, cfg=None):
+    """Families whose replay bundles hold one recorded observation (observation.json): judge it again with the
+    contract monitor.  (Re-executing the real code for such a case = re-running the check with the same VERIF_SEED;
+    the observation embeds the generated case.)"""
+    obs = json.load(open(os.path.join(replay, "observation.json")))
+    d = scratch("replay")
+    write_ndjson(os.path.join(d, "trace.ndjson"), [obs])
+    r = run_tlc(module, cfg or "SPECIFICATION TSpec\nPOSTCONDITION Accepted\nCHECK_DEADLOCK FALSE\n", workers=1, timeout=600,
+                extra_files={"trace.ndjson": open(os.path.join(d, "trace.ndjson")).read()})
+    if r.ok:
+        print("replay: contract accepts")
+        return 0
+    if "ostcondition" not in r.stdout and "Accepted" not in r.stdout:
+        raise Broken("replay validation failed:\n" + r.stdout[-2000:])
+    print("VIOLATION property=%s replay=%s" % (pid, replay))
+    return 1
+
+
 def read_ndjson(path):
     out = []
     with open(path) as fh:
